@@ -564,6 +564,94 @@ def run_between_windows(ctx, rng, hid):
         transport.close()
 
 
+def run_queued_writers(ctx, rng, hid):
+    """a reader is held inside its lock window while two conflicting writers arrive and queue behind it; then the reader goes on.
+    The writers must still go one after the other (exactly one `If-None-Match: *` PUT of a new name can be carried out), on both
+    back-ends — this is the schedule in which a readers-writer lock admits several waiting writers at once if it is wrong."""
+    import radicale.storage.multifilesystem.get as mget
+    nolock = rng.random() < 0.5
+    conf = {"auth": {"type": "none"}, "rights": permissive_rights()}
+    if nolock:
+        conf["storage"] = {"type": "multifilesystem_nolock"}
+    sim = davsim.Sim.__new__(davsim.Sim)
+    transport = InProcess(conf)
+    etag_cid = {}
+    orig_get = mget.CollectionPartGet._get
+    try:
+        base = ctx.driver.ask1({"m": "dav", "op": "new"})["sid"]
+        lin0 = Linearizer(ctx, [], None, etag_cid, base)
+        cal = ["u", "c1"]
+        setup = [SETUP[0], {"method": "PUT", "path": cal + ["a.ics"], "body": "cal", "objs": [POOL[0]]}]
+        store = None
+        for r in setup:
+            m, path, body, env = davsim.Sim.http(sim, r)
+            st, hd, text = transport.send(0, m, path, body, env)
+            observe(r, st, hd, text, etag_cid)
+            store = lin0.model_req(base, r)["store"]
+        reader = {"method": "PROPFIND", "path": cal, "as_collection": True, "depth1": True}
+        new_objs = [o for o in POOL if o["kind"] != "VCARD" and o["uid"] != POOL[0]["uid"]]
+        o1, o2 = rng.choice(new_objs), rng.choice(new_objs)
+        kind = rng.choice(["same-name", "same-uid", "whole-vs-item"])
+        if kind == "same-name":
+            writers = [{"method": "PUT", "path": cal + ["n.ics"], "body": "cal", "objs": [o1], "if_none_match_star": True},
+                       {"method": "PUT", "path": cal + ["n.ics"], "body": "cal", "objs": [o2], "if_none_match_star": True}]
+        elif kind == "same-uid":
+            writers = [{"method": "PUT", "path": cal + ["n1.ics"], "body": "cal", "objs": [o1]},
+                       {"method": "PUT", "path": cal + ["n2.ics"], "body": "cal", "objs": [o1]}]
+        else:
+            writers = [{"method": "PUT", "path": cal, "as_collection": True, "body": "cal", "objs": [o1]},
+                       {"method": "PUT", "path": cal + ["n.ics"], "body": "cal", "objs": [o2]}]
+        hist = []
+        hlock = threading.Lock()
+        state = {"started": False, "tid": None, "threads": []}
+
+        def do(ci, r):
+            m, path, body, env = davsim.Sim.http(sim, r)
+            t0 = time.monotonic()
+            st, hd, text = transport.send(ci, m, path, body, env)
+            t1 = time.monotonic()
+            with hlock:
+                hist.append({"client": ci, "r": r, "t0": t0, "t1": t1, "raw": (st, hd, text)})
+
+        def held_get(self, href, verify_href=True):
+            if threading.get_ident() == state["tid"] and not state["started"]:
+                state["started"] = True
+                for ci, w in enumerate(writers):
+                    t = threading.Thread(target=do, args=(ci + 1, w), daemon=True)
+                    t.start()
+                    state["threads"].append(t)
+                time.sleep(0.25)                       # both writers are now waiting for the reader (or, wrongly, already inside)
+            return orig_get(self, href, verify_href)
+        mget.CollectionPartGet._get = held_get
+        state["tid"] = threading.get_ident()
+        do(0, reader)
+        for t in state["threads"]:
+            t.join(timeout=30)
+        mget.CollectionPartGet._get = orig_get
+        for h in hist:
+            st, hd, text = h.pop("raw")
+            h["obs"] = observe(h["r"], st, hd, text, etag_cid)
+        fin = final_state(transport, sim, etag_cid)
+        case = {"backend": "nolock" if nolock else "flock", "writers": kind, "statuses": sorted(h["obs"]["status"] for h in hist if h["client"] > 0)}
+        ctx.case("queued-writers:%s:%s" % (case["backend"], kind), sample=case, key=[hid], nontrivial=state["started"])
+        if any(h["obs"]["status"] >= 500 for h in hist):
+            ctx.violation("a request was answered with a server error when two writers queued behind a reader", dict(case, history=[h["obs"] for h in hist]))
+        lin = Linearizer(ctx, hist, fin, etag_cid, base)
+        order = lin.search(base, json.dumps(store, sort_keys=True), frozenset())
+        if order is None:
+            replay = {"schedule": "a PROPFIND is held at its first item read; two writers arrive; the PROPFIND goes on", "backend": case["backend"],
+                      "history": [{"client": h["client"], "request": {k: v for k, v in h["r"].items() if k != "objs"}, "observed": h["obs"]} for h in hist],
+                      "final": fin}
+            if sequential_explained(ctx, sorted(hist, key=lambda x: x["t1"]), setup):
+                ctx.violation("two writers queued behind a reader: answers %s and the final state are those of no one-at-a-time order"
+                              % case["statuses"], replay)
+            else:
+                ctx.disagree("the sequential model does not explain these requests even one at a time", replay, "observed", "model")
+    finally:
+        mget.CollectionPartGet._get = orig_get
+        transport.close()
+
+
 def witness_f6(ctx):
     """first login = three lock windows; a DELETE of the home between creation and handler"""
     from radicale import app as rapp
@@ -621,4 +709,6 @@ def run(ctx):
         run_targeted(ctx, rng, ("x", h))
     for h in range(ctx.n(40, 800)):
         run_between_windows(ctx, rng, ("w", h))
+    for h in range(ctx.n(16, 400)):
+        run_queued_writers(ctx, rng, ("q", h))
     witness_f6(ctx)
